@@ -1,5 +1,5 @@
 (* Model/C05Run.v - case type and checker evaluated on harness-generated cases (C05) *)
-From ReqV Require Export Lib.Bytes Lib.BigEndian Model.QuicVarint Model.H2Frame Model.H3Frame Model.H2Meta Model.H3Writer.
+From ReqV Require Export Lib.Bytes Lib.BigEndian Model.QuicVarint Model.H2Frame Model.H3Frame Model.H2Meta Model.H3Writer Model.H2EncConn.
 Open Scope N_scope.
 
 
@@ -14,6 +14,9 @@ Inductive c05_case :=
 (* HTTP/3: one ParseNext call on a reader holding input; the bytes left are compared on success *)
 (* several header blocks through ONE Framer / hpack decoder *)
 | H2MetaSeq (max_list : N) (blocks : list (N * list (N * list hfield))) (obs : list meta_res)
+(* one connection's header encoder: the peer's limit and, per valid exchange, the field list and
+   whether the client refused it *)
+| H2EncSeq (limit : N) (xs : list (list hfield * bool))
 | H3Next (body : bool) (input : bytes) (obs : h3res h3frame) (obs_rest : option bytes)
 (* dataFrame/headersFrame.Append (t = 0 / 1) *)
 | H3FrameHdr (t l : N) (obs : option bytes)
@@ -179,6 +182,7 @@ Definition c05_check (c : c05_case) : bool :=
   | H2Write c obs => wres_eqb (run_wcall c) obs
   | H2Meta mx sid frags obs => meta_res_eqb (h2_meta mx sid frags) obs
   | H2MetaSeq mx blocks obs => list_eqb meta_res_eqb (h2_meta_seq true mx blocks) obs
+  | H2EncSeq limit xs => forallb (fun x => Bool.eqb (over_limit limit (fst x)) (snd x)) xs
   | H3Next body i obs rest =>
       let '(r, lft) := h3_parse_next_b body i in
       h3res_frame_eqb r obs && match rest with Some x => bytes_eqb lft x | None => true end
